@@ -70,6 +70,18 @@ func c02Gen(p *simrt.Tape) any {
 		}
 		pl.Ops = append(pl.Ops, c02Op{At: at, Kind: c02Kinds[p.Pick(len(c02Kinds))], Job: j})
 	}
+	// name re-use at the instant a job starts: a claim (run or cancel) and a re-schedule of the same name
+	// exactly at the timer, followed by an operation on the new instance
+	if p.Pct(30) {
+		j := p.Pick(nj)
+		t := pl.Jobs[j].At
+		if t > 0 {
+			first := []string{"run", "cancel", "runif"}[p.Pick(3)]
+			later := []string{"cancel", "cancelif", "run", "exists"}[p.Pick(4)]
+			pl.Ops = append(pl.Ops, c02Op{At: t, Kind: first, Job: j}, c02Op{At: t, Kind: "resched", Job: j},
+				c02Op{At: t + []time.Duration{1, time.Second, 5 * time.Second}[p.Pick(3)], Kind: later, Job: j})
+		}
+	}
 	return pl
 }
 
